@@ -1,1 +1,272 @@
-/- C10: property theorems go here (only property theorems, non-vacuity examples, #print axioms). -/
+import StorageModel.C10.LexProofs
+import StorageModel.C10.TreeCursorProofs
+import StorageModel.C10.ListenerProofs
+import StorageModel.C10.ListenTreeProofs3
+import StorageModel.C10.ParseProofs
+import StorageModel.C10.TransformProofs
+import StorageModel.C10.ValidateProofs
+import StorageModel.C10.Pipeline
+import StorageModel.C10.BoltSymbols
+import StorageModel.C10.Expected
+import StorageModel.Generated.C10Sites
+/-
+  C10 — Parsing and evaluation are total: no panics, invalid input is rejected.
+
+  "For every input string, parsing terminates without panicking and yields either a typed query
+  or an error, and text that is not a sentence of the filter grammar - including text containing
+  characters the lexer does not recognise - is rejected rather than silently altered into a
+  different query. Every query that parses successfully can be evaluated against any dataset,
+  including null fields, empty sets and empty stores, without panicking."
+-/
+namespace StorageModel.Properties.C10
+open StorageModel StorageModel.C10
+
+/-! ## 2a. the reference lexer neither skips nor alters anything -/
+
+/-- **lossless lexing**: the token texts, concatenated, are the input — for every input. -/
+theorem lex_lossless (s : List Char) (ts : List Token) (h : lex s = .ok ts) :
+    (ts.map (·.text)).flatten = s :=
+  (lexAux_tokenises _ _ _ _ h).flatten
+
+/-- every token is non-empty and its text is matched by the grammar rule of its kind -/
+theorem lex_tokens_match_rules (s : List Char) (ts : List Token) (h : lex s = .ok ts) : Tokenises s ts :=
+  lexAux_tokenises _ _ _ _ h
+
+/-- a lexer error is reported at a position of the input where no rule matches a non-empty
+    prefix (it is never an artefact of the fuel) -/
+theorem lex_error_is_real (s : List Char) (e : Nat) (h : lex s = .error e) :
+    ∃ pre rest, s = pre ++ rest ∧ rest ≠ [] ∧ e = pre.length ∧ pick rest = none := by
+  obtain ⟨pre, rest, h1, h2, h3, h4⟩ := lexAux_error (s.length + 1) s 0 e (by omega) h
+  exact ⟨pre, rest, h1, h2, by omega, h4⟩
+
+theorem rules_alphabet_ok : ∀ kp ∈ rules, ruleAlphabetOk kp = true := by decide
+
+/-- **unrecognised characters are rejected**: in an accepted input, a character outside the
+    token alphabet (`@ # $ % ^ & * ; ~ { } | ?`, a back-quote, control characters, non-ASCII, …) can only occur inside a
+    string literal; anywhere else it makes `lex` fail. -/
+theorem lex_rejects_unrecognised (s : List Char) (ts : List Token) (h : lex s = .ok ts) :
+    ∀ t ∈ ts, t.kind ≠ .STRING → ∀ c ∈ t.text, recognised c = true := by
+  have ht := lexAux_tokenises _ _ _ _ h
+  clear h
+  induction ht with
+  | nil => intro t ht; cases ht
+  | cons hmem hm _ _ _ ih =>
+    intro t ht hk c hc
+    rcases List.mem_cons.mp ht with rfl | ht'
+    · have hok := rules_alphabet_ok _ hmem
+      simp only [ruleAlphabetOk, Bool.or_eq_true, beq_iff_eq] at hok
+      rcases hok with hs | hr
+      · exact absurd hs hk
+      · split at hr
+        · next rs hrs => exact inRanges_within hr c (alpha_posRanges _ rs c hrs (hm.alpha c hc))
+        · cases hr
+    · exact ih t ht' hk c hc
+
+/-- non-vacuity / instances -/
+example : (match lex "a = 1 @".toList with | .error e => e == 6 | .ok _ => false) = true := by decide
+example : recognised '@' = false ∧ recognised '#' = false ∧ recognised ';' = false ∧ recognised '`' = false := by decide
+
+/-! ## 0. the regenerated facts are the ones the model was written against -/
+
+/-- interfaces implemented by every node class of package ast, and their constant GetType():
+    every type assertion of the model is a lookup in this table -/
+theorem class_table_is_expected : Generated.C10.classTable = expectedClassTable := by decide
+
+/-- the inventory of unchecked type assertions, pointer dereferences (with: is the pointer
+    compared with nil in the function), constant indexes and slice expressions -/
+theorem sites_are_expected : Generated.C10.partialSites = expectedSites := by decide
+
+/-- zitiql.parse attaches the collecting error listener to BOTH lexer and parser -/
+theorem wiring_is_expected : Generated.C10.wiring = expectedWiring := by decide
+
+/-- the callbacks ToBoltListener defines are the cases of the model's `step` -/
+theorem callbacks_are_expected : Generated.C10.listenerCallbacks = expectedCallbacks := by decide
+
+/-! ## 1a. the listener's stack machine -/
+
+/-- **no panic on any callback sequence of an ANTLR walk** — complete derivations and
+    error-recovered trees alike: array contexts contain only element terminals (`clean`). -/
+theorem listener_no_panic (evs : List Ev) (h : clean false evs = true) : (listen evs).isPanic = false :=
+  listen_isPanic evs (run_no_panic_aux evs false .init h (by intro h; cases h))
+
+/-- the hypothesis is not vacuous, and without it the Go code does panic: a marker value inside
+    an array group reaches `node.GetType()` with `node == nil` -/
+example : clean false [.term .IDENTIFIER ['a'], .term .IN ['i', 'n'], .eSA, .term .STRING ['"', 'x', '"'], .xSA, .xIn, .xQ] = true := by decide
+example : (listen [.eSA, .term .EQ ['='], .xSA]).isPanic = true := by decide
+
+/-- **on every complete derivation** the walk yields exactly the query the derivation denotes, or
+    latches an error (a literal is refused: number out of range, impossible date, non-integer
+    skip/limit, a sub-query without predicate) -/
+theorem listener_builds_query (t : StartTree) (h : t.wf = true) :
+    listen t.events = (match t.build with
+      | some u => .ok u
+      | none => .err "listener error") ∧
+    ∀ u, t.build = some u → shQuery u = true := by
+  refine ⟨listen_tree t h, ?_⟩
+  intro u hu
+  simp only [StartTree.wf, Bool.and_eq_true] at h
+  exact query_shaped t.q h.1.2 u hu
+
+theorem listener_no_panic_on_trees (t : StartTree) (h : t.wf = true) : (listen t.events).isPanic = false := by
+  rw [(listener_builds_query t h).1]; cases t.build <;> rfl
+
+/-! ## 2b. the reference recogniser accepts only sentences -/
+
+/-- an accepted token list is the yield of a well-formed derivation of `start` -/
+theorem parse_sound (ts : List Token) (t : StartTree) (h : parseStart ts = some t) :
+    t.yield = ts ∧ t.wf = true := parseStart_sound ts t h
+
+/-- **accepted strings are sentences**: the string splits, without loss, into tokens matched by
+    the lexer rules, and these tokens are the frontier of a derivation of the grammar.  So text
+    that is not a sentence — in particular text with a character no token admits — is rejected. -/
+theorem accepts_sound (s : List Char) (h : accepts s = true) :
+    ∃ (ts : List Token) (t : StartTree), Tokenises s ts ∧ (ts.map (·.text)).flatten = s ∧ t.yield = ts ∧ t.wf = true := by
+  unfold accepts at h
+  cases hl : lex s with
+  | error e => simp [hl] at h
+  | ok ts =>
+    simp only [hl] at h
+    cases hp : parseStart ts with
+    | none => simp [hp] at h
+    | some t =>
+      have ht := lexAux_tokenises _ _ _ _ hl
+      exact ⟨ts, t, ht, ht.flatten, (parseStart_sound ts t hp).1, (parseStart_sound ts t hp).2⟩
+
+example : accepts "a = 1 @".toList = false := by decide
+example : accepts "a = 1".toList = true := by decide
+
+/-! ## 1b. symbol validation and type transformation -/
+
+/-- **typing never panics**: for every symbol table and every untyped query the grammar admits
+    (any operand mix), PostProcess returns a typed query or an error, and a returned query is
+    well typed -/
+theorem transform_no_panic (st : SymTab) (u : U) (h : shQuery u = true) :
+    (postProcess st u).isPanic = false ∧ ∀ t, postProcess st u = .ok t → okBool t = true := by
+  have hv := (validate_ok u).1 ((sh_vShape u).2.2.2.2 h) ⟨false, st, false, [], none⟩ (Or.inr rfl)
+  obtain ⟨v', hv', _⟩ := hv
+  have hcls : impl u.cls .BoolTypeTransformable = true := by
+    cases u <;> simp [shQuery] at h; simp [U.cls]
+  have ht := (transform_good u).2.2.2.2 h st
+  unfold postProcess
+  rw [hv']
+  simp only [Outcome.bind_ok, hcls, if_true]
+  by_cases he : v'.err = true
+  · simp only [he, if_true]; exact ⟨rfl, by intro t h'; cases h'⟩
+  · simp only [he, Bool.false_eq_true, if_false]
+    cases hx : typeTransformBool st u with
+    | ok t =>
+      have hok := ht.2 t hx
+      simp only [Outcome.bind_ok]
+      split
+      · exact ⟨rfl, by intro t' h'; cases h'; exact hok.1⟩
+      · exact ⟨rfl, by intro t' h'; cases h'⟩
+    | err e => exact ⟨rfl, by intro t h'; cases h'⟩
+    | panic p => rw [hx] at ht; exact absurd ht.1 (by simp [NP, Outcome.isPanic])
+
+/-! ## 1c. evaluation -/
+
+/-- **evaluation never panics**: a query that parsed can be evaluated against any row — null
+    fields, empty sets, no linked rows — with seekable or plain set cursors -/
+theorem eval_no_panic (st : SymTab) (u : U) (h : shQuery u = true) (t : T) (ht : postProcess st u = .ok t)
+    (seekable : Bool) (env : Env) : (evalBool seekable env t).isPanic = false :=
+  (eval_np t).1 ((transform_no_panic st u h).2 t ht) seekable env
+
+/-! ## the whole pipeline, for every input string -/
+
+/-- **ast.Parse is total and what it returns can always be evaluated**: for every string, every
+    symbol table and every dataset -/
+theorem pipeline_total (st : SymTab) (s : List Char) :
+    (parseModel st s).isPanic = false ∧
+    ∀ t, parseModel st s = .ok t → ∀ (seekable : Bool) (env : Env), (evalBool seekable env t).isPanic = false := by
+  unfold parseModel
+  split
+  · refine ⟨rfl, ?_⟩
+    intro t ht sk env; cases ht
+    exact (eval_np _).1 rfl sk env
+  · cases hl : lex s with
+    | error e => exact ⟨rfl, by intro t h; cases h⟩
+    | ok ts =>
+      simp only
+      cases hp : parseStart ts with
+      | none => exact ⟨rfl, by intro t h; cases h⟩
+      | some tree =>
+        simp only
+        obtain ⟨_, hwf⟩ := parseStart_sound ts tree hp
+        obtain ⟨hlisten, hshape⟩ := listener_builds_query tree hwf
+        rw [hlisten]
+        cases hb : tree.build with
+        | none => exact ⟨rfl, by intro t h; cases h⟩
+        | some u =>
+          simp only
+          have hu := hshape u hb
+          exact ⟨(transform_no_panic st u hu).1, fun t ht sk env => eval_no_panic st u hu t ht sk env⟩
+
+/-! ## 1e. the bolt-backed Symbols (boltz/query_cursor.go) — partial, with a known finding -/
+
+/-- the full statement: reading any symbol through `rowCursorImpl.IsNil` (and likewise `Eval*`)
+    never panics.  It is FALSE for the code as it is: a dotted set symbol that is read before a
+    set function has opened a cursor on it dereferences a nil `*stackedCursor`
+    (`count(kids.ss) = null`, `count(from kids where kids.ss = "x") > 0`; finding
+    composite_set_symbol_without_cursor, fix proposed in /verif/fixes/proposed). -/
+def bolt_symbols_no_panic_fullStatement : Prop := ∀ s : Option BoltSym, (rowIsNil s).isPanic = false
+
+/-- what holds: no panic for plain fields, set symbols, unknown symbols, and dotted set symbols
+    with an open cursor.  Missing for the full statement: the nil check in
+    `compositeEntitySetSymbol.Eval`. -/
+theorem bolt_symbols_no_panic_partial (s : Option BoltSym) (h : ∀ b, s = some b → b.cursorOpened = true) :
+    (rowIsNil s).isPanic = false := by
+  cases s with
+  | none => rfl
+  | some b =>
+    have := h b rfl
+    cases b with
+    | field v => rfl
+    | setRuntime v => rfl
+    | composite c => cases c <;> simp [BoltSym.cursorOpened] at this ⊢ <;> rfl
+
+/-- the witness -/
+example : ¬ bolt_symbols_no_panic_fullStatement := by
+  intro h
+  have := h (some (.composite none))
+  simp [rowIsNil, BoltSym.evalIsNil, Outcome.isPanic] at this
+
+example : (rowIsNil (some (.composite none))).isPanic = true := by decide
+example : ∀ b, some (BoltSym.setRuntime none) = some b → b.cursorOpened = true := by intro b h; cases h; rfl
+
+/-! ## 1d. the tree-set cursor (ast/cursors.go, shared with C14) -/
+
+/-- **any tree, also the empty one, any number of extra Next calls**: the cursor script yields
+    exactly the in-order elements and then stays invalid. -/
+theorem tree_cursor_enumerates (t : LTree) (extra : Nat) :
+    tcScript t extra = .ok (t.inorder, List.replicate extra false) := by
+  obtain ⟨c, hnew, hrem, hgood⟩ := tcNew_spec t
+  obtain ⟨c', hdrain, hgood', hv⟩ := tcDrain_spec (t.size + 1) c hgood (by rw [hrem, inorder_length]; omega)
+  simp only [tcScript, hnew, hdrain, tcExtra_spec extra c' hgood' hv, hrem]
+
+theorem tree_cursor_no_panic (t : LTree) (extra : Nat) : (tcScript t extra).isPanic = false := by
+  rw [tree_cursor_enumerates]; rfl
+
+/-- the empty tree (the input of fix 9437023) -/
+example : tcScript .nil 2 = .ok ([], [false, false]) := rfl
+
+end StorageModel.Properties.C10
+
+#print axioms StorageModel.Properties.C10.class_table_is_expected
+#print axioms StorageModel.Properties.C10.sites_are_expected
+#print axioms StorageModel.Properties.C10.wiring_is_expected
+#print axioms StorageModel.Properties.C10.callbacks_are_expected
+#print axioms StorageModel.Properties.C10.listener_no_panic
+#print axioms StorageModel.Properties.C10.listener_builds_query
+#print axioms StorageModel.Properties.C10.listener_no_panic_on_trees
+#print axioms StorageModel.Properties.C10.parse_sound
+#print axioms StorageModel.Properties.C10.accepts_sound
+#print axioms StorageModel.Properties.C10.transform_no_panic
+#print axioms StorageModel.Properties.C10.eval_no_panic
+#print axioms StorageModel.Properties.C10.pipeline_total
+#print axioms StorageModel.Properties.C10.bolt_symbols_no_panic_partial
+#print axioms StorageModel.Properties.C10.tree_cursor_enumerates
+#print axioms StorageModel.Properties.C10.tree_cursor_no_panic
+#print axioms StorageModel.Properties.C10.lex_lossless
+#print axioms StorageModel.Properties.C10.lex_tokens_match_rules
+#print axioms StorageModel.Properties.C10.lex_error_is_real
+#print axioms StorageModel.Properties.C10.lex_rejects_unrecognised
